@@ -369,7 +369,7 @@ type c11Env struct {
 	relayFail map[int]bool
 	nodeFail  map[int]bool
 	prepOut   map[int]string
-	fwdIn     map[int]*builderapiv1.SignedValidatorRegistration
+	fwdIn     map[[3]int]*builderapiv1.SignedValidatorRegistration
 	mode      string // "reg" | "fwd": how a relay judges the signature of what it receives
 	prepSeen  int
 	quiet     bool // no registration events (C12: the registration part is not in its trace)
@@ -380,7 +380,7 @@ func c11NewEnv(t testing.TB, tr *verifsupport.Trace, sc int, docs []c11Doc) *c11
 	c11InitKeys(t)
 	e := &c11Env{t: t, tr: tr, sc: sc, docs: map[int]*c11Doc{}, seed: verifsupport.Seed(),
 		srcOut: "error", signFail: map[[3]int]bool{}, relayFail: map[int]bool{}, nodeFail: map[int]bool{},
-		prepOut: map[int]string{}, fwdIn: map[int]*builderapiv1.SignedValidatorRegistration{}, mode: "reg"}
+		prepOut: map[int]string{}, fwdIn: map[[3]int]*builderapiv1.SignedValidatorRegistration{}, mode: "reg"}
 	e.acctsCond = sync.NewCond(&e.mu)
 	for i := range docs {
 		d := docs[i]
@@ -615,7 +615,7 @@ func (r *c11Relay) SubmitValidatorRegistrations(_ context.Context, opts *builder
 			ev.V, ev.Fee, ev.Gas = c11ValidatorID(msg.Pubkey), c11FeeID(msg.FeeRecipient), c11GasID(msg.GasLimit)
 			if mode == "fwd" {
 				e.mu.Lock()
-				in := e.fwdIn[ev.V]
+				in := e.fwdIn[[3]int{ev.V, ev.Fee, ev.Gas}]
 				e.mu.Unlock()
 				ev.SigOK = in != nil && in.Signature == reg.V1.Signature && in.Message.Timestamp.Equal(msg.Timestamp)
 			} else if root, err := msg.HashTreeRoot(); err == nil {
@@ -787,6 +787,7 @@ func c11Projection(ctx context.Context, s *Service) []map[string]interface{} {
 // ---------------------------------------------------------------------------------------------
 
 type c11System struct {
+	ct     *verifsupport.ChainTime
 	env    *c11Env
 	svc    *Service
 	sched  *verifsupport.Scheduler
@@ -832,6 +833,7 @@ func c11NewSystem(t testing.TB, env *c11Env, initOut string, initDoc int, realSi
 	}
 	ct := verifsupport.NewChainTime(32, 12*time.Second)
 	ct.SetSlot(3 * 32)
+	sys.ct = ct
 	svc, err := New(ctx,
 		WithLogLevel(zerolog.Disabled),
 		WithMonitor(nullmetrics.New()),
